@@ -392,7 +392,8 @@ type c13Cfg struct {
 	ecn       bool // the source host requests ECN: the target's SYN-ACK carries ECE
 	delayMs   int  // every router (and, with delayDest, the destination host) holds what it sends towards the source for this long (NFQUEUE + tools/nfq_delay.py): a path with real latency
 	delayDest bool
-	unreach   int // router that rejects everything for the destination (IPv4: REJECT rule, IPv6: `unreachable` route; 0 = none): it answers every probe that gets that far with destination-unreachable
+	bigPing   bool // router 1 pings the source host with 3000-byte echo requests (two fragments each) while the tool traces
+	unreach   int  // router that rejects everything for the destination (IPv4: REJECT rule, IPv6: `unreachable` route; 0 = none): it answers every probe that gets that far with destination-unreachable
 	run       func(l *lab) (got c13Out, problem string)
 }
 
@@ -527,6 +528,22 @@ func checkC13() fw.Check {
 					}
 					return o, judgeRun(o.runs[0], l.expectChain(1, v6)[:m], 1, false)
 				}})
+			}
+			// somebody pings the source host with 3000-byte echo requests while it traces (the requests arrive, and the kernel's
+			// answers leave, as two IP fragments each: the non-first fragments pass the ICMP branch of every capture filter and
+			// have no transport header to parse): nothing about the reported path changes
+			for _, pa := range [][]string{{"icmp", "-P", "icmp"}, {"udp", "-P", "udp"}, {"tcp-syn", "-P", "tcp", "-p", "8080", "--tcp-method", "syn"}, {"tcp-sack", "-P", "tcp", "-p", "8080", "--tcp-method", "sack"}, {"icmp6", "-P", "icmp", "--ipv6"}} {
+				pa := pa
+				if tier != "thorough" && (pa[0] == "tcp-sack" || pa[0] == "icmp6") {
+					continue
+				}
+				cfg := cliChain("large-ping-during-"+pa[0]+"/N3", 3, strings.HasSuffix(pa[0], "6"), append(append([]string{}, pa[1:]...), "-q", "1", "-Q", "1")...)
+				if strings.HasSuffix(pa[0], "6") {
+					// cliChain appends --ipv6 itself
+					cfg = cliChain("large-ping-during-"+pa[0]+"/N3", 3, true, "-P", "icmp", "-q", "1", "-Q", "1")
+				}
+				cfg.bigPing = true
+				cfgs = append(cfgs, cfg)
 			}
 			// a path with real latency: every router (and the destination host, except for SACK whose handshake has its own
 			// timeout) holds what it sends back for 400 ms; the per-probe timeout is 500 ms, so every reply arrives inside its
@@ -823,6 +840,48 @@ func runC13(c *fw.Ctx, id, tag string, cfg c13Cfg) {
 				return
 			}
 		}
+	}
+	if cfg.bigPing {
+		script := `
+import socket, struct, sys, time, os
+dst, v6 = sys.argv[1], sys.argv[2] == "6"
+s = socket.socket(socket.AF_INET6 if v6 else socket.AF_INET, socket.SOCK_RAW, socket.IPPROTO_ICMPV6 if v6 else socket.IPPROTO_ICMP)
+def csum(b):
+    if len(b) % 2: b += b"\0"
+    t = sum(struct.unpack("!%dH" % (len(b)//2), b))
+    while t >> 16: t = (t & 0xffff) + (t >> 16)
+    return (~t) & 0xffff
+sys.stdout.write("ready\n"); sys.stdout.flush()
+n = 0
+end = time.time() + 60
+while time.time() < end:
+    n += 1
+    body = os.urandom(3000)
+    if v6:
+        pkt = struct.pack("!BBHHH", 128, 0, 0, 99, n & 0xffff) + body
+    else:
+        h = struct.pack("!BBHHH", 8, 0, 0, 99, n & 0xffff)
+        pkt = struct.pack("!BBHHH", 8, 0, csum(h + body), 99, n & 0xffff) + body
+    try:
+        s.sendto(pkt, (dst, 0))
+    except OSError:
+        pass
+    time.sleep(0.02)
+`
+		for _, fam := range []string{"4", "6"} {
+			src := l.addr4(1, false)
+			if fam == "6" {
+				src = l.addr6(1, false)
+			}
+			la := labArgs([]string{"ip", "netns", "exec", l.ns[1], "python3", "-c", script, src, fam})
+			cmd := exec.Command(la[0], la[1:]...)
+			if err := cmd.Start(); err != nil {
+				c.Inconclusive(fmt.Sprintf("%s: cannot start the ping: %v", id, err))
+				return
+			}
+			l.procs = append(l.procs, cmd)
+		}
+		time.Sleep(300 * time.Millisecond)
 	}
 	// a first-time match ends the case. After a mismatch the configuration is repeated (up to 5 runs in all):
 	// 3 mismatches are a verdict (a deterministic defect fails every time, a probabilistic one most of the time),
